@@ -407,6 +407,59 @@ def shard_shipped(ctx, arg):
             ctx.sig("shipped", which, *sig_of(ref))
 
 
+def shard_start_address(ctx, arg):
+    """C40 only: the start address of a method's code is moved (EncodedMethod.set_code_idx / DCode.seek - 'set the start address of the buffer to
+    disassemble') before anything looked at the method. No reference model here: the statement itself is checked - whatever the analysis reports lies
+    at offsets at which the disassembler (get_instructions_idx of the same method) reports an instruction."""
+    which, idx, count = arg
+    from androguard.core import dex
+    from androguard.core.analysis.analysis import Analysis
+    rng = ctx.rng("blocks-start", idx)
+    for k in range(count):
+        ms = [cfg.gen_method(rng, allow_new=False, max_tries=0, wild_targets=False, front_payloads=False) for j in range(2)]
+        data, w, names = cfg.make_dex(ms)
+        try:
+            dx = dex.DEX(data)
+            em = dx.get_encoded_methods_class_method(cfg.CLS, names[1])
+            nskip = rng.randrange(1, min(4, len(ms[1].instr)))
+            start = ms[1].instr[nskip][0] if nskip < len(ms[1].instr) else 0
+            em.get_code()
+            em.set_code_idx(start)
+            an = Analysis(dx)
+            ma = an.get_method(em)
+            listing = list(em.get_instructions_idx())
+        except Exception as e:
+            ctx.count("start_address_cases_raising_%s" % type(e).__name__)
+            continue
+        ctx.ev()
+        ctx.count("methods_analysed_with_a_moved_start_address")
+        at = {off: ins for off, ins in listing}
+        total = (listing[-1][0] + listing[-1][1].get_length()) if listing else 0
+        wit = {"units": ["%04x" % u for u in w.code_units[(cfg.CLS, names[1], "V", ())][1]][:200], "start_address": start, "disassembler_offsets": sorted(at)[:60]}
+        for b in ma.get_basic_blocks().get():
+            if b.get_start() not in at or (b.get_end() not in at and b.get_end() != total):
+                ctx.violation("block-boundary-not-an-instruction-start-address-moved", "after set_code_idx(n) a block boundary is not an offset at which the disassembler reports an instruction",
+                              dict(wit, block=(b.get_start(), b.get_end())))
+                break
+            bad = False
+            for key in b.special_ins:
+                ins = at.get(key)
+                if ins is None or ins.get_op_value() not in (0x26, 0x2B, 0x2C):
+                    ctx.violation("special-ins-key-not-a-switch-start-address-moved", "after set_code_idx(n) a payload link hangs on an offset where the disassembler reports no switch/fill-array-data",
+                                  dict(wit, key=key))
+                    bad = True
+                    break
+                want = at.get(key + ins.get_ref_off() * 2)
+                got = b.get_special_ins(key)
+                if want is not None and got is not None and got is not want:
+                    ctx.violation("payload-link-wrong-start-address-moved", "after set_code_idx(n) the linked payload is not the instruction the disassembler reports at the encoded offset",
+                                  dict(wit, key=key, encoded=key + ins.get_ref_off() * 2))
+                    bad = True
+                    break
+            if bad:
+                break
+
+
 def shard_big(ctx, arg):
     """one DEX with many methods (code section far larger than one I/O buffer), written at several 4-byte shifts: what is reported for a method must not
     depend on where its bytes lie in the file"""
@@ -465,6 +518,8 @@ def run(ctx, which):
     files = [f for f in files if os.path.getsize(f) < (1000000 if ctx.quick else 10 ** 9)]
     args += [["shard_shipped", [which, f]] for f in files]
     args += [["shard_big", [which, i, 150, 32 if ctx.quick else 64]] for i in range(8 if ctx.quick else 16)]
+    if which == "C40":
+        args += [["shard_start_address", [which, i, 60 if ctx.quick else 3000]] for i in range(4)]
     ctx.run_shards(MOD, "dispatch", args, timeout=3000)
     ctx.require_counter("shipped_methods", 100)
     ctx.min_distinct = 10
